@@ -97,13 +97,13 @@ class Job:
         shutil.rmtree(self.dir, ignore_errors=True)
 
 
-def run_dump_slice(ctx, mode, path, start, end):
+def run_dump_slice(ctx, mode, path, start, end, third=0):
     """Run one slice of a DeltaEnum dump through the real decoder.  A worker death is bisected:
     the 256-state block in which it died is re-run with one forked grandchild per state."""
     results = []
     skip = 0
     for _ in range(200):
-        j = Job(ctx, mode, "dump", path=path, start=start, end=end, skip=skip)
+        j = Job(ctx, mode, "dump", path=path, start=start, end=end, skip=skip, third=third)
         res = j.run()
         if res is not None:
             results.append(res)
@@ -212,8 +212,10 @@ def phase_enum(ctx, fnd):
         parts = D.split_dump(dump, ctx.pick(5, 7))
         work = [(m, a, b) for m in MODES for (a, b) in parts]
         with cf.ThreadPoolExecutor(max_workers=len(work)) as ex:
-            outs = list(ex.map(lambda w: (w, run_dump_slice(ctx, w[0], dump, w[1], w[2])), work))
+            outs = list(ex.map(lambda w: (w, run_dump_slice(ctx, w[0], dump, w[1], w[2],
+                                                            third=(res.distinct // 3000 + 1) if w[0] == "py" else 0)), work))
         seen = {m: 0 for m in MODES}
+        oks, rejs = [], []
         for (mode, a, b), results in outs:
             for r in results:
                 ran = sum(v for k, v in r["counts"].items() if "/" in k)
@@ -227,6 +229,8 @@ def phase_enum(ctx, fnd):
                 # the states of one dump are pairwise distinct, so are (mode, slice, block, i)
                 for i in range(r["nontrivial"]):
                     ctx.nontrivial(("enum", cfg, mode, a, r["skip"], i))
+                oks += r.get("oks", [])
+                rejs += r.get("rejs", [])
                 for s in r["samples"]:
                     ctx.sample({"phase": "enum", "impl": mode, **s})
                 for bad in r["bad"]:
@@ -245,7 +249,34 @@ def phase_enum(ctx, fnd):
                 raise MachineryError(f"{cfg}: {m} ran {seen[m]} of {res.distinct} enumerated states")
         total += res.distinct
         os.remove(dump)
+        git_opinion_enum(ctx, cfg, oks, rejs)
     return total
+
+
+def git_opinion_enum(ctx, cfg, oks, rejs):
+    """C git as third opinion on the enumerated strings: every delta the reference accepts (>= 4 bytes,
+    git's DELTA_SIZE_MIN) must be resolved by git index-pack to the reference output; a sample of the
+    rejected ones (beyond the header) must be refused by git.  Disagreement = the specification is wrong."""
+    if not git_available():
+        return
+    oks = [o for o in oks if (varint_lens(bytes.fromhex(o[1])) or [99])[0] <= 9]
+    items = [((bi, d), BASES[bi], bytes.fromhex(d)) for bi, d, _ in oks]
+    got = git_decode_batch(ctx, items)
+    for bi, d, rout in oks:
+        want = D.git_blob_sha(bytes.fromhex(rout)).hex()
+        if got.get((bi, d)) != want:
+            raise MachineryError(f"reference decoder accepts base={BASES[bi]!r} delta={d} -> {rout}, C git says {got.get((bi, d))}")
+    ctx.rng.shuffle(rejs)
+    rejs = rejs[:ctx.pick(200, 1500)]
+
+    def one(r):
+        return r, git_decode_batch(ctx, [("k", BASES[r[0]], bytes.fromhex(r[1]))])["k"]
+
+    with cf.ThreadPoolExecutor(max_workers=8) as ex:
+        for r, g in ex.map(one, rejs):
+            if g is not None:
+                raise MachineryError(f"reference decoder rejects ({r[2]}) base={BASES[r[0]]!r} delta={r[1]}, C git accepts")
+    ctx.cov.setdefault("git_third_opinion_enum", {})[cfg] = {"reference_accepts_git_agrees": len(oks), "reference_rejects_git_agrees": len(rejs)}
 
 
 # =========================================================================== phase B: structured families
@@ -349,7 +380,7 @@ def judge_obs(ctx, fnd, mode, o, cand_sha, declared, blen, base_desc, delta, pro
     if o.get("rss_kb", 0) > budget_kb(blen, len(delta), produced):
         x = dict(x, rss_kb=o["rss_kb"], budget_kb=budget_kb(blen, len(delta), produced),
                  supplied_bytes=blen + len(delta), output_admitted_by_reference=produced)
-        fnd.decoder(mode, "memory-out-of-proportion", declared, base_desc, delta, o, x)
+        fnd.decoder(mode, f"memory-out-of-proportion(ref={why})", declared, base_desc, delta, o, x)
 
 
 # =========================================================================== phase C: encoders, round trip
@@ -961,7 +992,33 @@ def phase_prims(ctx, fnd):
         if t["tid"] != i:
             meta[i] = meta.pop(t["tid"])
             t["tid"] = i
-    v = tlc_traces(ctx, traces, "prims")
+    # negative controls of the binding: observations that contradict the statement must be refused by
+    # DeltaTrace (a trace specification that accepts them would make the whole check vacuous)
+    n0 = len(traces)
+    ab, good, tgt = [97, 98], [2, 3, 0x90, 2, 1, 120], [97, 98, 120]
+    ctl = [
+        ("corrupted output byte", {"kind": "rt", "delta": good, "obs": [{"impl": "x", "kind": "bytes", "out": [97, 99, 120]}]}),
+        ("output one byte short", {"kind": "rt", "delta": good, "obs": [{"impl": "x", "kind": "bytes", "out": [97, 98]}]}),
+        ("process killed", {"kind": "mut", "delta": good, "obs": [{"impl": "x", "kind": "killed", "out": []}]}),
+        ("foreign exception", {"kind": "mut", "delta": good, "obs": [{"impl": "x", "kind": "exception", "out": []}]}),
+        ("output for a delta that declares 2^64", {"kind": "mut", "delta": [2] + [0x80] * 9 + [2], "obs": [{"impl": "x", "kind": "bytes", "out": []}]}),
+        ("truncated insert accepted", {"kind": "mut", "delta": [2, 1, 5, 120], "obs": [{"impl": "x", "kind": "bytes", "out": [120]}]}),
+        ("wrong op bytes", {"kind": "op", "off": 256, "n": 5, "bytes": [0x91, 1, 5]}),
+        ("wrong size bytes", {"kind": "size", "nd": [0, 1], "bytes": [0x80, 0x02]}),
+    ]
+    for name, t in ctl:
+        t = dict(t, tid=len(traces) + 1)
+        if t["kind"] in ("rt", "mut"):
+            t.update(blen=2, full=True, base=ab, target=tgt if t["kind"] == "rt" else [])
+        traces.append(t)
+    v = tlc_traces(ctx, traces, "prims+controls")
+    for i, (name, t) in enumerate(ctl, n0 + 1):
+        vv = v[i]
+        refused = (not vv[3]) if t["kind"] in ("op", "size") else (not vv[8][0] or (t["kind"] == "rt" and not vv[9][0]))
+        if not refused:
+            raise MachineryError(f"negative control '{name}' was accepted by DeltaTrace: {vv}")
+    ctx.cov["binding_negative_controls_refused"] = len(ctl)
+    traces = traces[:n0]
     for tid, (kind, r) in meta.items():
         ctx.validated()
         ctx.nontrivial(("prim", kind, json.dumps(r, sort_keys=True)))
@@ -1063,7 +1120,16 @@ def run(ctx):
 def replay(ctx, path):
     with open(path) as f:
         obj = json.load(f)
-    print(json.dumps({k: v for k, v in obj.items() if k not in ("observed",)}, indent=1)[:4000])
+    def short(v):
+        if isinstance(v, str) and len(v) > 300:
+            return v[:200] + f"...({len(v)} chars)"
+        if isinstance(v, list):
+            return [short(x) for x in v]
+        if isinstance(v, dict):
+            return {k: short(x) for k, x in v.items()}
+        return v
+
+    print(json.dumps(short(obj), indent=1))
     rustext.build()
     ctx.known = []
     fnd = Findings(ctx)
@@ -1122,6 +1188,43 @@ def replay(ctx, path):
                 print(f"C git: {g}; target blob {D.git_blob_sha(target).hex()}")
                 if g != D.git_blob_sha(target).hex():
                     fnd.encoder(mode, "roundtrip", obj["base"], obj["target"], len(base), len(target), {"class": "git-decoder"})
+    elif kind == "pack":
+        b, d, mode = D.blob(obj["base"]), bytes.fromhex(obj["delta"]), obj["mode"]
+        case = {"id": "r", "type": obj["type"], "base": obj["base"], "delta": obj["delta"], "iso": True}
+        obs = run_case_jobs(ctx, "pack", [case], 1)
+        for m in MODES:
+            print(f"observed {m} (through a pack file): { {k: v for k, v in obs[m]['r'].items() if k != 'hex'} }")
+        full = all("hex" in obs[m]["r"] or obs[m]["r"]["k"] != "bytes" for m in MODES)
+        tr = {"tid": 1, "kind": "mut", "blen": len(b), "delta": list(d), "full": full, "base": list(b) if full else [],
+              "target": [], "obs": [obs_for_trace(m, obs[m]["r"]) for m in MODES] if full else []}
+        v = tlc_traces(ctx, [tr], "replay")[1]
+        _, _, st, why, dst, chas, prod, rt, allowed, eq, segs, csegs = v
+        declared = D.limbs_to_int(dst)
+        print(f"reference decoder: {st} ({why}); declared target size {declared}; postcondition admits an output: {chas}")
+        o = obs[mode]["r"]
+        j = MODES.index(mode)
+        cand = D.materialise(b, d, csegs) if chas and not full else None
+        good = o["k"] == "delta-error" or (o["k"] == "bytes" and (allowed[j] if full else (cand is not None and o["sha"] == D.sha1(cand))))
+        if "roundtrip" in obj.get("signature", "") and o["k"] != "bytes":
+            good = False
+        if not good:
+            fnd.add(obj.get("signature", "pack"), f"{mode}: {clause_of(o, declared)} through a pack file", {"kind": "pack"}, 0)
+    elif kind == "prim":
+        j = Job(ctx, "py", "prims", ops=[obj["op"]] if "op" in obj else [], sizes=[obj["size"]] if "size" in obj else [])
+        res = j.run()
+        print(json.dumps({k: res[k] for k in ("ops", "sizes")}))
+        traces = []
+        for r in res["ops"]:
+            if "hex" in r:
+                traces.append({"tid": len(traces) + 1, "kind": "op", "off": r["off"], "n": r["n"], "bytes": list(bytes.fromhex(r["hex"]))})
+        for r in res["sizes"]:
+            if "hex" in r:
+                traces.append({"tid": len(traces) + 1, "kind": "size", "nd": D.int_to_limbs(int(r["n"])), "bytes": list(bytes.fromhex(r["hex"]))})
+        v = tlc_traces(ctx, traces, "replay")
+        bad = [t for t in traces if not v[t["tid"]][3]] or ([1] if not traces else [])
+        print(f"TLC: parses back to the same value: {not bad}")
+        if bad:
+            fnd.add(obj.get("signature", "prim"), "encoder primitive does not round-trip", {"kind": "prim"}, 0)
     else:
         print("nothing to re-execute for this record")
     n = len(fnd.best)
